@@ -43,9 +43,9 @@ func regress(t *testing.T, c *Case, wantClass ...string) {
 // of its bool field (field 12, key byte 0x60) panics every consumer of NewBlockHeader.
 func TestRegressReadBoolTruncatedHeader(t *testing.T) {
 	header := unhex("60")
-	block := unhex("0a0160")            // RawBlock{Header: 60}
-	gossip := unhex("0a030a0160")       // p2p.Message{Data: block}
-	blocksResp := unhex("0a030a0160")   // getBlocksFromIDResponse{blocks: [block]}
+	block := unhex("0a0160")          // RawBlock{Header: 60}
+	gossip := unhex("0a030a0160")     // p2p.Message{Data: block}
+	blocksResp := unhex("0a030a0160") // getBlocksFromIDResponse{blocks: [block]}
 	regress(t, bcase("NewBlockHeader", header, "", 0, false), "err")
 	regress(t, bcase("NewBlock", block, "", 0, false), "err")
 	regress(t, bcase("Block.Validate", block, "", 0, false), "err")
